@@ -556,7 +556,17 @@ def design_tree(r, name):
     if pair:
         la = [l for l in leaves if l["path"] == pair[0]]
         lb = [l for l in leaves if l["path"] == pair[1]]
-        leaves = [l for l in leaves if l["path"] not in pair] + la + lb
+        ldeep = []
+        if len(pair[1]) < 3 and random.Random(f"{name}-pairdeep").random() < 0.5:
+            # the longer-named sibling has a nested struct of its own whose member comes right after the members of the
+            # shorter-named one: `base`, then `base2.deep` (decided on a random stream of its own)
+            deep = pair[1] + ("deep",)
+            if deep not in paths:
+                paths.append(deep)
+                tynames[deep] = "T" + "".join(x.capitalize() for x in deep)
+                ldeep = [{"path": deep, "aname": f"f{k}", "sname": f"f{k}", "ren": False, "k": k}]
+                k += 1
+        leaves = [l for l in leaves if l["path"] not in pair] + la + ldeep + lb
     # the code groups members by their full path; a member without #[child] is a group of its own (its name)
     if not contiguous_after_sort([l["path"] if l["path"] else ("<" + l["sname"] + ">",) for l in leaves]):
         m.tags.append("interleaved-siblings")
@@ -640,6 +650,12 @@ def design_tree_hints(r, name):
         cps = f"{nplain}: V as {{}}, {gpath}: M"
         hint = " as ()"
         fields = [f"#[map({i})] pub p{i}: i64" for i in range(nplain)] + [f"#[child({nplain})] pub c{i}: i64" for i in range(nchild)]
+        # now and then (a random stream of its own) one flattened member carries expressions and no name: `~` resolves
+        # inside the nested struct, by the shape #[child_parents] gives it (named), not by the counterpart's (positional)
+        ra = random.Random(f"{name}-childact")
+        act = ra.randrange(nchild) if ra.random() < 0.5 else None
+        if act is not None:
+            fields[nplain + act] = f"#[child({nplain})] #[from(~ * 2)] #[into(~ + 3)] pub c{act}: i64"
     ghosts = ", ".join(f"{gpath}@id{i}: {{ {g} }}" for i, g in enumerate(gval))
     attrs = [f"#[{pre}map(A{hint}{err})]"] + ([f"#[{pre}into_existing(A{hint}{err})]"] if with_existing else []) + [f"#[child_parents({cps})]", f"#[ghosts({ghosts})]"]
     item = " ".join(attrs) + " pub struct S { " + ", ".join(fields) + " }"
@@ -647,6 +663,7 @@ def design_tree_hints(r, name):
     m.types.append(f"#[derive(o2o)] {DERIVES} " + item)
     pv = lambda b: [b + i for i in range(nplain)]
     cv = lambda b: [b + 50 + i for i in range(nchild)]
+    act = locals().get("act") if shape == 1 else None
 
     def a_value(b, ids):
         mv = ("named", "M", [(f"id{i}", x) for i, x in enumerate(ids)])
@@ -656,6 +673,11 @@ def design_tree_hints(r, name):
     s_value = lambda b: ("named", "S", [(f"p{i}", x) for i, x in enumerate(pv(b))] + [(f"c{i}", x) for i, x in enumerate(cv(b))])
     a_in, s_in = a_value(10, [7] * len(gval)), s_value(100)
     exp_s, exp_a = s_value(10), a_value(100, gval)
+    if act is not None:
+        # From doubles what it reads from the nested struct, Into / IntoExisting add 3 to what they write into it
+        exp_s = ("named", "S", [(n, v * 2 if n == f"c{act}" else v) for n, v in exp_s[2]])
+        bump = lambda vv: ("named", "V", [(n, v + 3 if n == f"c{act}" else v) for n, v in vv[2]])
+        exp_a = ("tuple", "A", exp_a[2][:-1] + [bump(exp_a[2][-1])])
     a_pre = a_value(9000, [9] * len(gval))
     wrap = (lambda v: ("ok", v)) if fallible else (lambda v: v)
     if fallible:
@@ -1043,7 +1065,7 @@ def design_subst(r, name):
     """the mix used for C10: programs whose inline expressions use `~` / `@` (flat structs with actions, enums whose
     payload expressions designate another position)"""
     t = r.random()
-    return design_enum(r, name) if t < 0.4 else design_flat_skew(r, name) if t < 0.55 else design_flat(r, name)
+    return design_enum(r, name) if t < 0.4 else design_flat_skew(r, name) if t < 0.55 else design_tree_hints(r, name) if t < 0.7 else design_flat(r, name)
 
 
 def design_wf(r, name):
